@@ -70,6 +70,12 @@ def run_geo(pid, tier, seed, keys, what_text, sig_extra=None, classes=None, opts
         if cse.get("vacuum"):
             vo.update({"vacuum": True, "_noT": True})
         jobs.append((ci, 4, "interior", (cse, oracle[ci], 4, "interior", keys, vo), "inputs given component-wise"))
+        jobs.append((ci, 4, "interior", (cse, oracle[ci], 4, "interior", keys, dict(vo, _reversed=True)), "inputs given component-wise, keys in reverse order"))
+        va = dict(opts or {})
+        va["_aniso"] = (1.0, 0.8, 1.25)
+        if cse.get("vacuum"):
+            va.update({"vacuum": True, "_noT": True})
+        jobs.append((ci, 4, "interior", (cse, oracle[ci], 4, "interior", keys, va), "grid with dx != dy != dz"))
     if histories:
         hv, mres = history_variants(keys, tier)
         run.add_tlc(mres, "AurelCache on the extracted graph, 2 requests, nothing evicted: pre-histories for the compared keys")
